@@ -40,8 +40,10 @@ theorem refines_all (cfg : Cfg) (s : St) (c : Call) (h : WF cfg c) :
     onServer cfg s c = ((spec cfg s c).1, (spec cfg s c).2, sockAfter c (spec cfg s c).2) := by
   cases c with
   | arith incr k d nr => exact refines_arith cfg s incr k d nr h.1 h.2
-  | version => exact absurd h (by simp [WF])
-  | quit => exact absurd h (by simp [WF])
+  | version =>
+    rw [sockAfter_benign _ _ (by simp) (spec_benign cfg s _ (by simp))]
+    exact refines_version cfg s
+  | quit => exact refines_quit cfg s
   | raw a b => exact absurd h (by simp [WF])
   | store verb k v e nr fl cas =>
     rw [sockAfter_benign _ _ (by simp) (spec_benign cfg s _ (by simp))]
